@@ -51,10 +51,10 @@ func frame(tube byte, meta byte, declared uint16, ack, no uint32, data []byte) [
 }
 
 type world struct {
-	n        *scriptconn.Net
-	ma, mb   *tubes.Muxer
-	wa, wb   *tubes.Reliable // witness tube (A opened it)
-	k        int
+	n      *scriptconn.Net
+	ma, mb *tubes.Muxer
+	wa, wb *tubes.Reliable // witness tube (A opened it)
+	k      int
 }
 
 func setup() *world {
@@ -121,7 +121,7 @@ func (x *world) stop() {
 	w.Ev("stop", "ok", yn(ok))
 }
 
-var tubeRefs = []string{"live-rel", "live-unrel", "closed-rel", "never-rel", "never-unrel", "witness"}
+var tubeRefs = []string{"live-rel", "live-unrel", "closed-rel", "never-rel", "never-unrel", "witness", "finwait1-rel", "lastack-rel"}
 
 func frames(group int, rng *rand.Rand) {
 	x := setup()
@@ -153,14 +153,47 @@ func frames(group int, rng *rand.Rand) {
 	case "witness":
 		id = x.wa.GetID()
 		w.Ev("note", "what", "hostile frames on the witness tube itself: the witness may die, only liveness of Stop is probed")
+	case "finwait1-rel", "lastack-rel":
+		// the victim's end has a FIN outstanding; its frames towards the (real) peer tube are withheld so that only the
+		// injected frames answer it.  A fresh tube is brought into that state for every class triple (see below).
+		wid := x.wa.GetID()
+		x.n.SetPolicy(func(f *scriptconn.Frame) scriptconn.Action {
+			if f.Dir == 1 && f.Tube != wid && !f.REQ && !f.RESP {
+				return scriptconn.Action{Drop: true}
+			}
+			return scriptconn.Action{}
+		})
+		sent = 2 // the FIN is frame 1
+	}
+	finTube := func() byte {
+		t, _ := x.ma.CreateReliableTube(14)
+		tb0, _ := x.mb.Accept()
+		tb := tb0.(*tubes.Reliable)
+		if ref == "lastack-rel" {
+			t.Close() // the peer's FIN arrives first: closeWait, then the local close: lastAck
+			time.Sleep(15 * time.Millisecond)
+		}
+		tb.Close()
+		time.Sleep(10 * time.Millisecond)
+		return t.GetID()
 	}
 	lens := []string{"zero", "exact", "declared-less", "declared-more", "declared-max"}
+	if ref == "finwait1-rel" || ref == "lastack-rel" {
+		sent = 2
+	}
 	acks := map[string]uint32{"below": ackNo - 1, "current": ackNo, "sent": sent, "beyond": sent + 5, "max": 0xffffffff}
-	nos := map[string]uint32{"below": 0, "next": 1, "inwindow": 7, "beyond": 5000}
+	rnext := uint32(1) // what the victim's receiver expects next
+	if ref == "lastack-rel" {
+		rnext = 2 // the peer's FIN was frame 1
+	}
+	nos := map[string]uint32{"below": rnext - 1, "next": rnext, "inwindow": rnext + 6, "beyond": 5000}
 	count := 0
 	for _, lc := range lens {
 		for ac, av := range acks {
 			for nc, nv := range nos {
+				if ref == "finwait1-rel" || ref == "lastack-rel" {
+					id = finTube()
+				}
 				for meta := 0; meta < 64; meta++ {
 					m := byte(meta)
 					if rel {
@@ -194,6 +227,23 @@ func frames(group int, rng *rand.Rand) {
 					x.probe(fmt.Sprintf("%s/%s/%s/%s", ref, lc, ac, nc))
 				}
 			}
+		}
+	}
+	if ref == "finwait1-rel" {
+		// reordering at the end of a tube that the victim closed first: the peer acknowledges the FIN (finWait2), the
+		// peer's FIN (frame 2) overtakes its last data frame (frame 1)
+		for k := 0; k < 3; k++ {
+			id = finTube()
+			w.Ev("case", "ref", ref, "len", "exact", "ack", "sent", "no", "next", "meta", 100+k)
+			w.Flush()
+			x.n.B.Inject(frame(id, 4|8, 0, 2, 1, nil))       // pure ACK of the FIN
+			x.n.B.Inject(frame(id, 4|8|16, 0, 2, 2, nil))    // FIN, frame 2
+			x.n.B.Inject(frame(id, 4, 1, 2, 1, []byte{'x'})) // the data frame it overtook, frame 1
+			if k == 1 {
+				x.n.B.Inject(frame(id, 4|8, 1, 2, 1, []byte{'x'}))
+			}
+			time.Sleep(5 * time.Millisecond)
+			x.probe(ref + "/fin-overtakes-data")
 		}
 	}
 	time.Sleep(100 * time.Millisecond)
@@ -304,9 +354,14 @@ func decoders(rng *rand.Rand) {
 	}
 	// port-forward control packet: nettype(1) fwdtype(1) addrlen(2) addr - read by StartPFServer from a reliable tube.
 	// Every network-type byte x forward-type byte with an unconnectable address, plus the malformed classes.
-	pf := func(t *tubes.Reliable, m *tubes.Muxer) error { portforwarding.StartPFServer(t, &portforwarding.Forward{}, m); return nil }
+	pf := func(t *tubes.Reliable, m *tubes.Muxer) error {
+		portforwarding.StartPFServer(t, &portforwarding.Forward{}, m)
+		return nil
+	}
 	addr := []byte("127.0.0.1:1")
-	pkt := func(nt, ft byte, declared int, a []byte) []byte { return append(append([]byte{nt, ft}, u16(uint16(declared))...), a...) }
+	pkt := func(nt, ft byte, declared int, a []byte) []byte {
+		return append(append([]byte{nt, ft}, u16(uint16(declared))...), a...)
+	}
 	for nt := 0; nt < 8; nt++ {
 		for _, ft := range []byte{0, 1, 3, 4, 6, 255} { // not the "remote" type: a valid remote request legitimately keeps listening
 			tubeDecode("pfaddr", "unknown-enum", pkt(byte(nt), ft, len(addr), addr), pf)
